@@ -12,7 +12,8 @@ RULE = ('Random CSV datasets (1-3 symbols starting on different dates, 1-40 rows
         '(bid, ask, bid_ask, mid; also over two sources). Oracle from the written rows: sort, open/close events, '
         'forward fill, last event <= t, NaN if none; returned numbers are decoded back to their source cell. '
         'Metamorphic: the same rows in reverse order give identical answers. Non-trivial: a dataset with a gap, a '
-        'missing cell and shuffled rows; distinct = (adjust flag, gap pattern, missing-cell mask).')
+        'missing cell and shuffled rows; distinct = (adjust flag, gap pattern, missing-cell mask).'
+        ' Widened: the same instant expressed in other time zones and with a nanosecond component; the same directory rewritten and loaded by a new source object; Adj Close blank on its own.')
 ASSUMPTIONS = [
     'unique dates per file; Close and Adj Close are missing together (otherwise "scaled by adjusted-close/close" has no single reading)',
     'values compared at 1e-12 relative (one division and one multiplication in the adjustment)',
